@@ -84,7 +84,8 @@ type Stats struct {
 	Vacuous      int
 	Inconclusive int
 	InconMsgs    map[string]int
-	Branches     int // solver-decided branch edges
+	Branches     int // decided branch edges (new decisions only, not prefix replays)
+	Repaired     int // of those: sibling shown feasible by a concrete model found near the witness (no solver call)
 	Choices      int
 	Queries      int
 	QSat         int
@@ -138,6 +139,7 @@ type pathCtx struct {
 	decisions []dec
 	witness   []uint64
 	pending   []*term // path-condition conjuncts not yet sent to the solver
+	pcAll     []*term
 	pc        int     // number of conjuncts
 	ndlog     []ndEntry
 	observe   []string
@@ -153,9 +155,11 @@ type pathCtx struct {
 	viols        []*Violation
 	stuckMsg     string
 	budgetHit    bool
+	userdata     map[string]value
 	known        map[int32]bool // term id -> truth value implied syntactically by the path condition
 	bound        uint64         // variables (index < 63) fixed to one value by an equality in the path condition
 	cacheHits    int
+	repaired     int
 	bgPanic      string
 	bgPanicVal   interface{}
 	branches     int
@@ -173,8 +177,108 @@ func (p *pathCtx) addPC(c *term) {
 		return
 	}
 	p.pending = append(p.pending, c)
+	p.pcAll = append(p.pcAll, c)
 	p.pc++
 	p.learn(c)
+}
+
+// repair looks for a model of pc ∧ goal near the current witness by changing
+// the value of one variable of goal to a value suggested by the constants of
+// goal. A model found this way is a genuine model (every conjunct is
+// evaluated concretely); failure means nothing and the solver is asked.
+func (p *pathCtx) repair(goal *term) []uint64 {
+	m := goal.varMask()
+	if m == 0 || m&(1<<63) != 0 {
+		return nil
+	}
+	for len(p.witness) < len(p.tb.vars) {
+		p.witness = append(p.witness, 0)
+	}
+	var consts []uint64
+	seen := map[int32]bool{}
+	var collect func(t *term)
+	collect = func(t *term) {
+		if t == nil || seen[t.id] {
+			return
+		}
+		seen[t.id] = true
+		if t.op == opConst && t.w != 0 {
+			consts = append(consts, t.k)
+		}
+		collect(t.a)
+		collect(t.b)
+		collect(t.c)
+	}
+	collect(goal)
+	if len(consts) > 24 {
+		consts = consts[:24]
+	}
+	// constants of the conjuncts that constrain the same variables (e.g. the
+	// members of a rune's domain)
+	for _, c := range p.pcAll {
+		if len(consts) > 64 {
+			break
+		}
+		if c.varMask()&m != 0 {
+			collect(c)
+		}
+	}
+	w := make([]uint64, len(p.witness))
+	copy(w, p.witness)
+	nvars := 0
+	for vi := 0; vi < 63 && vi < len(w); vi++ {
+		if m&(1<<uint(vi)) == 0 {
+			continue
+		}
+		nvars++
+		if nvars > 3 {
+			break
+		}
+		old := w[vi]
+		width := p.tb.vars[vi].w
+		try := func(val uint64) bool {
+			val &= mask(wOr1(width))
+			if val == old {
+				return false
+			}
+			w[vi] = val
+			p.tb.newModel()
+			ok := p.tb.eval(goal, w) != 0
+			if ok {
+				for _, c := range p.pcAll {
+					if c.varMask()&(1<<uint(vi)) != 0 && p.tb.eval(c, w) == 0 {
+						ok = false
+						break
+					}
+				}
+			}
+			if !ok {
+				w[vi] = old
+			}
+			return ok
+		}
+		found := false
+		if width == 0 {
+			found = try(old ^ 1)
+		}
+		for _, k := range consts {
+			if found {
+				break
+			}
+			for _, cand := range [...]uint64{k, k + 1, k - 1, old ^ k, old | k, old &^ k} {
+				if try(cand) {
+					found = true
+					break
+				}
+			}
+		}
+		p.tb.newModel()
+		if found {
+			return w
+		}
+	}
+	p.tb.newModel()
+	return nil
 }
 
 // learn records what a new conjunct implies syntactically: the truth of the
@@ -284,8 +388,15 @@ func (p *pathCtx) branchV(c *term, recVal uint64) bool {
 	if take {
 		other = p.tb.not(c)
 	}
-	p.flush()
-	res, model := p.S.check(p.tb, other, true)
+	var res satResult
+	var model []uint64
+	if model = p.repair(other); model != nil {
+		res = resSat
+		p.repaired++
+	} else {
+		p.flush()
+		res, model = p.S.check(p.tb, other, true)
+	}
 	switch res {
 	case resSat:
 		alt := make([]dec, len(p.decisions)+1)
@@ -506,6 +617,7 @@ func (ex *Explorer) done(p *pathCtx, instrs int64) {
 	st.Paths++
 	st.Instrs += instrs
 	st.Branches += p.branches
+	st.Repaired += p.repaired
 	st.Choices += p.choices
 	st.Asserts += p.asserts
 	st.AssertsTriv += p.assertsTriv
@@ -646,7 +758,7 @@ func siteOf(fr *frame) string {
 func (ex *Explorer) runPath(S *solver, it workItem) (p *pathCtx, instrs int64) {
 	S.newPath()
 	p = &pathCtx{ex: ex, S: S, tb: newTermTable(), prefix: it.prefix, witness: it.witness,
-		cover: map[string]bool{}, funcs: map[*ssa.Function]bool{}, budget: ex.cfg.InstrBudget, panicNil: ex.cfg.PanicNil}
+		cover: map[string]bool{}, funcs: map[*ssa.Function]bool{}, budget: ex.cfg.InstrBudget, panicNil: ex.cfg.PanicNil, userdata: map[string]value{}}
 	i := ex.base.fork(p)
 	defer func() {
 		r := recover()
